@@ -244,6 +244,53 @@ pub fn run(args: &Args) {
         }
     }
 
+    // ---- 0b: what may stand as a condition: numbers of every type; never strings, records, whole arrays
+    {
+        let pre = "TYPE Card\nValue AS INTEGER\nInner AS Pt\nEND TYPE\n";
+        let pre = format!("TYPE Pt\nX AS INTEGER\nEND TYPE\n{}DIM c AS Card\nDIM deck(1 TO 2) AS Card\nDIM nums(1 TO 2) AS INTEGER\nDIM fs AS STRING * 3\ns$ = \"a\"\ni% = 1\nl& = 1\nf! = 1\nd# = 1\n", pre);
+        let values: [(&str, bool); 14] = [
+            ("i%", true), ("l&", true), ("f!", true), ("d#", true), ("c.Value", true), ("deck(1).Value", true), ("nums(1)", true), ("c.Inner.X", true),
+            ("c", false), ("deck(2)", false), ("c.Inner", false), ("s$", false), ("fs", false), ("\"x\"", false),
+        ];
+        let shapes = [
+            "IF {V} THEN\nPRINT 1\nEND IF\n",
+            "IF 0 THEN\nPRINT 1\nELSEIF {V} THEN\nPRINT 2\nEND IF\n",
+            "IF {V} THEN PRINT 1\n",
+            "K9% = 0\nWHILE {V}\nK9% = K9% + 1\nIF K9% > 1 THEN EXIT WHILE\nWEND\n",
+            "K9% = 0\nDO WHILE {V}\nK9% = K9% + 1\nIF K9% > 1 THEN GOTO Out9\nLOOP\nOut9:\n",
+            "K9% = 0\nDO UNTIL {V}\nK9% = K9% + 1\nIF K9% > 1 THEN GOTO Out9\nLOOP\nOut9:\n",
+            "K9% = 0\nDO\nK9% = K9% + 1\nIF K9% > 1 THEN GOTO Out9\nLOOP WHILE {V}\nOut9:\n",
+            "K9% = 0\nDO\nK9% = K9% + 1\nIF K9% > 1 THEN GOTO Out9\nLOOP UNTIL {V}\nOut9:\n",
+        ];
+        for (v, ok) in values.iter() {
+            for (si, shape) in shapes.iter().enumerate() {
+                // EXIT WHILE is not BASIC: the WHILE shape leaves through its own condition instead
+                let body = if si == 3 { "K9% = 0\nWHILE {V}\nK9% = K9% + 1\nIF K9% > 1 THEN GOTO Out9\nWEND\nOut9:\n".to_string() } else { shape.to_string() };
+                let src = format!("{}{}", pre, body.replace("{V}", v));
+                evaluations += 1;
+                let o = run_program(&src, &RunOpts { budget: 5_000, ..Default::default() });
+                sum.count(if *ok { "conditions_numeric" } else { "conditions_not_numeric" });
+                match &o {
+                    Outcome::Ran(r) => {
+                        if !*ok {
+                            sum.violation(ImplViolation { key: "condition-verdict".into(), input: src.replace('\n', " | "), expected: "Type mismatch from the checker".into(), observed: format!("accepted, then {:?}", r.end).chars().take(160).collect() });
+                        } else if let End::Err(13, ..) = r.end {
+                            sum.violation(ImplViolation { key: "type-mismatch-at-run-time:condition".into(), input: src.replace('\n', " | "), expected: "no Type mismatch in an accepted program".into(), observed: format!("{:?}", r.end) });
+                        }
+                    }
+                    Outcome::LintError { msg, .. } => {
+                        if *ok || family(msg) != "type" {
+                            sum.violation(ImplViolation { key: "condition-verdict".into(), input: src.replace('\n', " | "), expected: if *ok { "accepted".into() } else { "an error of the type family".into() }, observed: msg.clone() });
+                        }
+                    }
+                    other => {
+                        sum.violation(ImplViolation { key: "condition-verdict".into(), input: src.replace('\n', " | "), expected: "accepted or Type mismatch".into(), observed: format!("{:?}", verdict(other)) });
+                    }
+                }
+            }
+        }
+    }
+
     // ---- A/B: core programs, verdict against the Coq typing model
     let n_core = if args.thorough() { 1200 } else { 350 };
     for k in 0..n_core {
